@@ -171,3 +171,279 @@ Example C01_ex_dot_rejected :
   mem_step [] (OMkdirAll [46;46;47;120]) = ([], RErr) /\ mem_step [] (OWriteFile [46] [1]) = ([], RErr) /\
   mem_step [] (OMkdirAll [46]) = ([], RUnit).
 Proof. vm_compute. repeat split. Qed.
+
+(** ------------------------------------------------------------------------------------------
+    Proof audit (second part).  The theorems above state each mutation GIVEN that it succeeded
+    (safety), one level of child view with a canonical base, and canonicity of the reduction.
+    The theorems below close those gaps:
+    - every mutation is a TOTAL function of the lookups of the old tree: when it succeeds and
+      what every path answers afterwards ([C01_*_total], [C01_success_iff]; they supersede
+      [C01_write], [C01_mkdir], [C01_remove], [C01_remove_all], [C01_copy_deep], which remain);
+    - the spellings the property names are equivalent around arbitrary strings and an operation
+      sees its strings only through the reduction ([C01_spelling_*]);
+    - chains of views of ANY depth ([C01_views_any_depth], [C01_history_step_any_depth], ...);
+    - the headline clause: on every history the memfs model and a NESTED plain tree of named
+      nodes (Model/PlainTree.v, operations by recursion along the path) give the same outcomes
+      and the same observable tree ([C01_history_is_plain_tree]).
+    ------------------------------------------------------------------------------------------ *)
+From GC Require Import Model.PlainTree Proofs.C01Total Proofs.C01Views Proofs.C01Tree.
+From Coq Require Import Permutation.
+
+(** mkdir fails exactly when a file is on the way ([file_on_way]: some non-root prefix of the
+    path, the path included, is a file); otherwise every prefix of the path is a directory
+    afterwards and every other path answers as before. *)
+Theorem C01_mkdir_total : forall t p, WF t -> good_path p = true ->
+  match mkdir_all t p with
+  | None => file_on_way t p = true
+  | Some t' => file_on_way t p = false /\ WF t' /\
+               forall q, lookup t' q = if is_prefix q p then Some D else lookup t q
+  end.
+Proof. exact mkdir_all_total. Qed.
+Print Assumptions C01_mkdir_total.
+
+(** write fails exactly when a file is on the way to the parent or the target is a directory;
+    otherwise the target holds the new content (whatever it held), every proper prefix is a
+    directory and every other path answers as before. *)
+Theorem C01_write_total : forall t p data, WF t -> good_path p = true -> p <> [] ->
+  match write_at t p data with
+  | None => write_pre t p = false
+  | Some t' => write_pre t p = true /\ WF t' /\
+      forall q, lookup t' q =
+        if path_eqb q p then Some (F data) else if is_prefix q p then Some D else lookup t q
+  end.
+Proof. exact write_at_total. Qed.
+Print Assumptions C01_write_total.
+
+(** remove is this function of the old tree: a file or an empty directory goes (with nothing
+    else), anything else - a missing path, a non-empty directory - is refused. *)
+Theorem C01_remove_total : forall t p, WF t -> p <> [] ->
+  remove_at t p = (if remove_pre t p then Some (delete_subtree t p) else None) /\
+  forall q, lookup (delete_subtree t p) q = if is_prefix p q then None else lookup t q.
+Proof. intros t p HWF Hp. split; [apply remove_at_total; assumption|intros q; apply lookup_delete; exact Hp]. Qed.
+Print Assumptions C01_remove_total.
+
+Theorem C01_remove_all_total : forall t p, WF t -> p <> [] ->
+  remove_all_at t p = if exists_at t p then Some (delete_subtree t p) else None.
+Proof. exact remove_all_at_total. Qed.
+Print Assumptions C01_remove_all_total.
+
+(** a directory is non-empty (so that remove refuses it) iff something is bound strictly below
+    it, iff its listing is non-empty *)
+Theorem C01_nonempty_dir : forall t p, WF t ->
+  (has_children t p = true <-> exists x, x <> [] /\ lookup t (p ++ x) <> None) /\
+  has_children t p = match children t p with [] => false | _ => true end.
+Proof. intros t p HWF. split; [apply has_children_lookup|apply has_children_listing]; exact HWF. Qed.
+Print Assumptions C01_nonempty_dir.
+
+(** copy succeeds exactly when the source exists with the demanded kind, no file is on the way
+    to the destination's parent and the destination name is free; then the destination subtree
+    answers as the source subtree (seen after the destination's parents were made) and every
+    path outside the destination answers as before, the parents being directories. *)
+Theorem C01_copy_total : forall k t src dst, WF t -> good_path dst = true -> dst <> [] ->
+  match copy_at k t src dst with
+  | None => copy_pre k t src dst = false
+  | Some t' => copy_pre k t src dst = true /\ WF t' /\
+      (forall x, lookup t' (dst ++ x) =
+                 match x with [] => lookup t src | _ => with_parents t dst (src ++ x) end) /\
+      (forall q, is_prefix dst q = false -> lookup t' q = with_parents t dst q)
+  end.
+Proof. exact copy_at_total. Qed.
+Print Assumptions C01_copy_total.
+
+(** for the operations on RAW strings: plain success is reported exactly under [mem_ok], a
+    condition on the reduced arguments and the lookups of the old tree *)
+Theorem C01_success_iff : forall t o, WF t -> (snd (mem_step t o) = RUnit <-> mem_ok t o = true).
+Proof. exact mem_step_ok. Qed.
+Print Assumptions C01_success_iff.
+
+(** the names of a listing are pairwise distinct in every reachable state *)
+Theorem C01_listing_names_distinct : forall h p, NoDup (map fst (children (run_hist [] h) p)).
+Proof. intros h p. apply children_names_nodup. apply (run_hist_WF h [] WF_nil). Qed.
+Print Assumptions C01_listing_names_distinct.
+
+(** Spellings, around ARBITRARY strings X and Y (47 is the slash, 46 the dot). *)
+Theorem C01_spelling_slashes : forall X Y,
+  reduce (47 :: Y) = reduce Y /\ reduce (X ++ [47]) = reduce X /\
+  reduce (X ++ 47 :: 47 :: Y) = reduce (X ++ 47 :: Y).
+Proof.
+  intros X Y. split; [apply reduce_leading_slash|split; [apply reduce_trailing_slash|apply reduce_double_slash]].
+Qed.
+Print Assumptions C01_spelling_slashes.
+
+Theorem C01_spelling_dot : forall X Y,
+  reduce (46 :: 47 :: Y) = reduce Y /\ reduce (X ++ [47; 46]) = reduce X /\
+  reduce (X ++ 47 :: 46 :: 47 :: Y) = reduce (X ++ 47 :: Y).
+Proof.
+  intros X Y. split; [apply reduce_leading_dot|split; [apply reduce_trailing_dot|apply reduce_dot_segment]].
+Qed.
+Print Assumptions C01_spelling_dot.
+
+Theorem C01_spelling_dotdot : forall X n Y, good_name n = true ->
+  reduce (n ++ 47 :: 46 :: 46 :: 47 :: Y) = reduce Y /\
+  reduce (X ++ 47 :: n ++ [47; 46; 46]) = reduce X /\
+  reduce (X ++ 47 :: n ++ 47 :: 46 :: 46 :: 47 :: Y) = reduce (X ++ 47 :: Y).
+Proof.
+  intros X n Y Hn. split; [apply reduce_leading_dotdot; exact Hn|].
+  split; [apply reduce_trailing_dotdot; exact Hn|apply reduce_inner_dotdot; exact Hn].
+Qed.
+Print Assumptions C01_spelling_dotdot.
+
+(** an operation sees its path strings only through what they reduce to - on the root and
+    through a view *)
+Theorem C01_spelling_irrelevant : forall t o1 o2, same_paths o1 o2 ->
+  mem_step t o1 = mem_step t o2 /\ forall base, view_step base t o1 = view_step base t o2.
+Proof. intros t o1 o2 H. split; [apply mem_step_spelling; exact H|intros base; apply view_step_spelling; exact H]. Qed.
+Print Assumptions C01_spelling_irrelevant.
+
+(** Views at any depth: a chain of Filespace calls with any raw arguments fails or yields the
+    view rooted at the concatenation of the reduced arguments ([chain_path]). *)
+Theorem C01_views_any_depth : forall chain,
+  resolve_view None chain =
+  match chain with
+  | [] => Some None
+  | _ => match chain_path [] chain with Some b => Some (Some (view_base b)) | None => None end
+  end.
+Proof. exact resolve_view_spec. Qed.
+Print Assumptions C01_views_any_depth.
+
+(** hence a history step through ANY chain is the tree-level operation on the prefixed path
+    (supersedes [C01_view_is_tree_step], which needs one view with a canonical base) *)
+Theorem C01_history_step_any_depth : forall t chain o,
+  hist_step t (chain, o) =
+  match chain_path [] chain with Some b => view_tree_step b t o | None => (t, RErr) end.
+Proof. exact hist_step_is_tree_step. Qed.
+Print Assumptions C01_history_step_any_depth.
+
+(** a view made from a view is the one view at the concatenated base *)
+Theorem C01_nested_view_is_one_view : forall t c1 c2 o b1, chain_path [] c1 = Some b1 ->
+  hist_step t (c1 ++ c2, o) =
+  match chain_path b1 c2 with Some b => view_tree_step b t o | None => (t, RErr) end.
+Proof. exact hist_step_nested. Qed.
+Print Assumptions C01_nested_view_is_one_view.
+
+(** errors change nothing, also through views of any depth (supersedes
+    [C01_error_changes_nothing], which is about the root only) *)
+Theorem C01_history_error_changes_nothing : forall t vo,
+  snd (hist_step t vo) <> RUnit -> fst (hist_step t vo) = t.
+Proof. exact hist_step_unchanged. Qed.
+Print Assumptions C01_history_error_changes_nothing.
+
+(** frame through any chain of views: nothing outside the view's base is touched *)
+Theorem C01_history_step_frame : forall t chain o b q, WF t ->
+  chain_path [] chain = Some b -> is_prefix b q = false ->
+  (forall e, lookup t q = Some e -> lookup (fst (hist_step t (chain, o))) q = Some e) /\
+  (lookup t q = None -> lookup (fst (hist_step t (chain, o))) q <> None ->
+   lookup (fst (hist_step t (chain, o))) q = Some D /\ is_prefix q b = true).
+Proof. exact hist_step_outside. Qed.
+Print Assumptions C01_history_step_frame.
+
+(** The headline clause.  [same_tree t T]: the list model [t] and the nested tree [T] answer
+    alike on every path.  One step, any operation, any raw arguments, through the view with base
+    [b]: same outcome (listings up to order) and they answer alike afterwards. *)
+Theorem C01_step_is_plain_tree : forall b t T o, WF t -> WFT T -> same_tree t T -> good_path b = true ->
+  out_equiv (snd (view_tree_step b t o)) (snd (tree_step b T o)) /\
+  same_tree (fst (view_tree_step b t o)) (fst (tree_step b T o)) /\
+  WFT (fst (tree_step b T o)).
+Proof. exact step_sim. Qed.
+Print Assumptions C01_step_is_plain_tree.
+
+(** Every history from the empty filespace - all 16 operations, root and views of any depth,
+    any raw strings and contents: the memfs model and the nested plain tree give the same
+    outcomes in order and the same observable tree at the end (hence after every prefix). *)
+Theorem C01_history_is_plain_tree : forall h,
+  Forall2 out_equiv (fst (fhist [] h)) (fst (thist (TD []) h)) /\
+  same_tree (run_hist [] h) (snd (thist (TD []) h)) /\
+  WFT (snd (thist (TD []) h)).
+Proof. exact memfs_is_plain_tree. Qed.
+Print Assumptions C01_history_is_plain_tree.
+
+(** what answering alike means for an observer: kind and content of every path and the listing
+    of every directory (distinct names with kinds, up to order) coincide *)
+Theorem C01_same_tree_observations : forall t T, WF t -> WFT T -> same_tree t T ->
+  forall p,
+    match tget T p with
+    | Some (TF d) => lookup t p = Some (F d)
+    | Some (TD cs) => lookup t p = Some D /\ Permutation (children t p) (tlist cs)
+    | None => lookup t p = None
+    end.
+Proof. exact same_tree_observations. Qed.
+Print Assumptions C01_same_tree_observations.
+
+(** A reading of the deep-copy clause that is FALSE of the model (and of memfs, checked with a
+    scratch test: MkdirAll a, Copy a to a/b/c, then a/b/c/b is a directory): the copy is not
+    always the source as it was BEFORE the call - when the destination lies inside the source,
+    the destination's freshly made parents are part of what is copied.  [C01_copy_total] and
+    [C01_copy_deep] state what holds instead. *)
+Theorem C01_copy_snapshot_before_refuted :
+  exists t src dst t' x, WF t /\ copy_at CAny t src dst = Some t' /\
+    lookup t' (dst ++ x) <> lookup t (src ++ x).
+Proof.
+  exists [([[97]], D)], [[97]], [[97]; [98]; [99]].
+  eexists. exists [[98]]. split; [|split; [vm_compute; reflexivity|vm_compute; discriminate]].
+  apply (run_hist_WF [([], OMkdirAll [97])] [] WF_nil).
+Qed.
+Print Assumptions C01_copy_snapshot_before_refuted.
+
+(** Non-vacuity of the new implications: the hypotheses hold of reachable, non-trivial states
+    and both branches of every total characterisation occur. *)
+Definition ex_t1 : fs := run_hist [] [([], OWriteFile [97;47;102] [104;105]); ([], OMkdirAll [97;47;100])].
+Example C01_ex_total_branches :
+  WF ex_t1 /\
+  (* mkdir: a/f/x has the file a/f on its way, a/g/h has not *)
+  file_on_way ex_t1 [[97];[102];[120]] = true /\ mkdir_all ex_t1 [[97];[102];[120]] = None /\
+  file_on_way ex_t1 [[97];[103];[104]] = false /\ mkdir_all ex_t1 [[97];[103];[104]] <> None /\
+  (* write: replace a/f, create a/g/h with its parent, refuse the directory a/d and a/f/x *)
+  write_pre ex_t1 [[97];[102]] = true /\ write_at ex_t1 [[97];[102]] [1] <> None /\
+  write_pre ex_t1 [[97];[103];[104]] = true /\
+  write_pre ex_t1 [[97];[100]] = false /\ write_at ex_t1 [[97];[100]] [1] = None /\
+  write_pre ex_t1 [[97];[102];[120]] = false /\
+  (* remove: the file and the empty directory go, the non-empty directory and a missing path stay *)
+  remove_pre ex_t1 [[97];[102]] = true /\ remove_pre ex_t1 [[97];[100]] = true /\
+  remove_pre ex_t1 [[97]] = false /\ remove_pre ex_t1 [[122]] = false /\
+  has_children ex_t1 [[97]] = true /\ has_children ex_t1 [[97];[100]] = false /\
+  (* copy: allowed to a free name, refused onto an existing one, of a missing source, of the wrong kind *)
+  copy_pre CAny ex_t1 [[97]] [[107]] = true /\ copy_pre CAny ex_t1 [[97]] [[97];[100]] = false /\
+  copy_pre CAny ex_t1 [[122]] [[107]] = false /\ copy_pre CFileOnly ex_t1 [[97]] [[107]] = false /\
+  (* raw operations *)
+  mem_ok ex_t1 (ORemoveAll [47;97;47;47;100;47]) = true /\ mem_ok ex_t1 (ORemove [97]) = false.
+Proof. split; [apply run_hist_WF; exact WF_nil|vm_compute; repeat split; intros H; discriminate H]. Qed.
+
+Example C01_ex_spellings :
+  good_name [120] = true /\
+  reduce [47;97;47;47;98;47;46;47;120;47;46;46;47;99;47] = Some [[97];[98];[99]] /\
+  same_paths (OWriteFile [47;97;47;47;98] [1]) (OWriteFile [97;47;120;47;46;46;47;98] [1]).
+Proof. vm_compute. repeat split. Qed.
+
+Example C01_ex_chain :
+  chain_path [] [[97;47;46;47;98]; [99;47;46;46;47;100]; [47;101]] = Some [[97];[98];[100];[101]] /\
+  chain_path [] [[97]; [46;46;47;120]] = None /\
+  resolve_view None [[97;47;46;47;98]; [99;47;46;46;47;100]; [47;101]] = Some (Some [97;47;98;47;100;47;101;47]) /\
+  is_prefix [[97];[100]] [[97];[102]] = false /\
+  fst (hist_step ex_t1 ([[97]; [100]], OWriteFile [120] [7])) <> ex_t1.
+Proof. vm_compute. repeat split. intros H; discriminate H. Qed.
+
+(** the two models side by side on one history (root, a view, a copy into the own subtree, a
+    listing through a view, a refused remove) *)
+Definition ex_h2 : list (list bytes * op) :=
+  [([], OWriteFile [46;47;97;47;47;98;47;102] [104;105]);
+   ([[97]], OMkdirAll [98;47;46;46;47;99]);
+   ([], OCopy [97] [107]);
+   ([], ORemoveAll [97;47;98]);
+   ([], OCopy [107] [107;47;98;47;122;47;121]);
+   ([[107]], OReadDir []);
+   ([], ORemove [107]);
+   ([[107]; [98]], OReadFile [102])].
+Example C01_ex_plain_tree :
+  fst (fhist [] ex_h2) = [RUnit; RUnit; RUnit; RUnit; RUnit; RList [([98], true); ([99], true)]; RErr; RData [104;105]] /\
+  fst (thist (TD []) ex_h2) = fst (fhist [] ex_h2) /\
+  snd (thist (TD []) ex_h2) =
+    TD [([97], TD [([99], TD [])]);
+        ([107], TD [([98], TD [([102], TF [104;105]);
+                               ([122], TD [([121], TD [([98], TD [([102], TF [104;105]); ([122], TD [])]);
+                                                       ([99], TD [])])])]);
+                    ([99], TD [])])] /\
+  WF (run_hist [] ex_h2) /\ WFT (snd (thist (TD []) ex_h2)) /\ same_tree (run_hist [] ex_h2) (snd (thist (TD []) ex_h2)).
+Proof.
+  split; [vm_compute; reflexivity|]. split; [vm_compute; reflexivity|]. split; [vm_compute; reflexivity|].
+  split; [apply run_hist_WF; exact WF_nil|]. destruct (C01_history_is_plain_tree ex_h2) as (_ & A & B). auto.
+Qed.
